@@ -332,7 +332,7 @@ func (r *Run) RunBatch(b Batch) {
 						r.mu.Unlock()
 					}
 				})
-				if gotSummary && co.Exit == 0 {
+				if gotSummary && (co.Exit == 0 || co.Exit == 66) { // 66: the race detector's exit status; its reports are read from the log files
 					os.Remove(base + ".job")
 					os.Remove(base + ".out")
 					os.Remove(base + ".log")
